@@ -75,6 +75,10 @@ impl<F: Frame, G: FnMut(usize) -> F> Gen<F, G> {
 impl<F: Frame, G: FnMut(usize) -> F> Signal for Gen<F, G> {
     type Frame = F;
     fn next(&mut self) -> F {
+        if self.c.trip.get() == Some(self.c.pulls.get()) {
+            self.c.trip.set(None);
+            panic!("injected source failure");
+        }
         self.c.pulls.set(self.c.pulls.get() + 1);
         let f = (self.g)(self.n);
         self.n += 1;
